@@ -142,7 +142,7 @@ def search(pid, tier, seed, escalate, hints):
             bad = False
             for ox, oy in zip(x['state'], y['state']):
                 if (ox['ratio'] is None) != (oy['ratio'] is None) or (ox['ratio'] is not None and abs(ox['ratio'] - oy['ratio']) > 1e-12 * abs(ox['ratio'])) \
-                        or abs(ox['eff'] - oy['eff']) > 1e-9 or (ox['lock'] != oy['lock'] and not near_threshold_call(c, j)) or ox['drives'] != oy['drives']:
+                        or abs(ox['eff'] - oy['eff']) > 1e-9 or (ox['lock'] != oy['lock'] and not any(near_threshold_call(c, i) for i in range(j + 1))) or ox['drives'] != oy['drives']:
                     bad = True
             if bad:
                 out.append(dict(cls='relation-state', what=f'call {j} {c["calls"][j]}: link state differs after re-expressing angles/modules', case=dict(elems=c['elems'], calls=c['calls'], reexpressed=c2['elems'])))
